@@ -413,6 +413,36 @@ def run_static_case(case):
             pass
     except Exception as e:
         out.append(('eval-probe:%s' % type(e).__name__, 'runs', repr(e)[:160], 'eval probe'))
+    if kind == 'linker':
+        # submodel identifiers may be any hashable object, also one with state of its own: a copy gets identifiers of its own
+        class Region:
+            def __init__(self, name):
+                self.name = name
+                self.notes = []
+
+            def __hash__(self):
+                return hash(self.name)
+
+            def __eq__(self, other):
+                return isinstance(other, Region) and other.name == self.name
+
+            def __repr__(self):
+                return 'Region(%r)' % self.name
+        for route in ('copy()', 'copy.copy', 'copy.deepcopy'):
+            lk = LkC({Region('north'): _M(list(SPAN), X=1.0), ('t', Region('south')): _M(list(SPAN), X=2.0)})
+            try:
+                cp = ROUTES[route](lk)
+            except Exception as e:
+                out.append(('copy:identifier-objects:%s' % type(e).__name__, 'a copy', repr(e)[:120], 'a linker whose submodel identifiers are objects cannot be copied'))
+                break
+            same = [repr(k) for k in cp.submodels for j in lk.submodels if (k is j and not isinstance(k, tuple)) or (isinstance(k, tuple) and isinstance(j, tuple) and k[1] is j[1])]
+            if same:
+                out.append(('copy:shared-identifier-object:%s' % route, 'identifiers of its own', same, 'a copied linker shares the (mutable) identifier objects of its submodels with the original'))
+                break
+            list(cp.submodels)[0].notes.append('edited on the copy')
+            if any(getattr(k, 'notes', None) for k in lk.submodels):
+                out.append(('copy:identifier-edit-leaks:%s' % route, [], 'edited on the copy', 'editing a submodel identifier of the copy shows on the original'))
+                break
     if kind == 'model':
         # a hand-written class that declares ENDOGENOUS but no CHECK (and one that declares neither): instances own their lists
         class Hand(fsic.BaseModel):
@@ -551,10 +581,24 @@ def pre_ops(pre):
     return [pre[3:]] if pre.startswith('op:') else PRE[pre]
 
 
+def _usable_class(kind, acc, case):
+    """The class of the objects under test; if operations on earlier *instances* have left the class unable to make a new instance
+    (a class-level list was edited through an instance), that is reported and the class lists are put back."""
+    try:
+        return klass(kind)
+    except Exception as e:
+        for c in list(_CLASS_ORIG):
+            _restore_class(c)
+        if acc is not None:
+            acc.violation('class-state:new-instance-fails-after-instance-operations:' + kind_group(kind), case, 'a new instance can be built',
+                          repr(e)[:160], 'operations on instances left the class unable to make a new instance')
+        return klass(kind)
+
+
 def run_block(block, tier, seed):
     acc = Acc()
     kind = block['kind']
-    _snapshot_class(klass(kind))
+    _snapshot_class(_usable_class(kind, acc, dict(block)))
     if kind in ('linker', 'mixin', 'model'):
         _snapshot_class(_M)
     names = list(op_table(kind))
@@ -597,7 +641,7 @@ def kind_group(kind):
 
 def run_one(case):
     kind = case['kind']
-    _snapshot_class(klass(kind))
+    _snapshot_class(_usable_class(kind, None, case))
     _snapshot_class(_M)
     if case.get('static'):
         return run_static_case(case)
